@@ -13,5 +13,9 @@ var Lexicon = []string{"a", "b1", "_x", "$left", "and", "or", "in", "by", "let",
 	"\"x\\ty\nz\"", "'p\\tq\n", "r'", "000018446744073709551616", "00018446744073709551615", "0000000000000000000000000000000000000000.50", "`a``b`", "`a```", "`c````d`",
 	// hexadecimal literals around and beyond 64 bits
 	"0x8000000000000000", "0x7fffffffffffffff", "0xFFFFFFFFFFFFFFFFF", "0x1FFFFFFFFFFFFFFFF", "0x18000000000000000", "0xFFFFFFFFFFFFFFFF0", "0xffffffffffffffffffffffffffffffff", "0x00c000000000000001", "0X8000000000000001",
+	// comment spellings of neighbouring languages, typographic quotes inside and outside strings, raw-string spellings
+	"/*/", "/**/", "/* x */", "*/", "/*", "#x\n", "\u2018", "\u2019", "\u201c", "\u201d", "'a\u2019b'", "\"a\u201db\"", "'\u2018'", "```", "```a```", "```a`", "@'a'", "@\"b", "@",
+	// integers around 2^64 whose last digit matters
+	"18446744073709551614", "18446744073709551617", "18446744073709551618", "18446744073709551619", "18446744073709551625", "184467440737095516150", "9223372036854775809",
 	// numbers that stop inside their exponent, signs glued together
 	"1e+", "2.5E-", "--", "- -", "+-", "1--1", "a--b"}
